@@ -58,6 +58,8 @@ def features(case, vio):
     op, in_conc = failing_op(case, vio)
     if in_conc:
         feats.add("threads")
+    if spec.get("aux"):
+        feats.add("same_name_other_module")
     if any(o["k"] == "conc" for o in case["ops"]):
         feats.add("has_conc")
     if any(o.get("abort_at") or o.get("abort_gen") for o in case["ops"]):
